@@ -29,8 +29,9 @@ def partitions(tier):
         for pi in range(len(PREFIXES)):
             if q and pi not in (1, 2, 4) and cmd != 1:
                 continue
-            parts.append({"name": "mapping-cmd%d-prefix%d" % (cmd, pi), "fn": "sym_mapping", "cmd": cmd, "prefix": pi,
-                          "maxlen": 2 if q else 3, "tlo": 0 if q else -3, "thi": 99 if q else 100000, "budget": 600 if q else 3000, "cost": 5})
+            for ack in (0, 1):
+                parts.append({"name": "mapping-cmd%d-prefix%d-ack%d" % (cmd, pi, ack), "fn": "sym_mapping", "cmd": cmd, "prefix": pi, "ack": ack,
+                              "maxlen": 2 if q else 3, "tlo": 0 if q else -3, "thi": 99 if q else 100000, "budget": 600 if q else 3000, "cost": 5})
     for first in range(3):
         parts.append({"name": "history-first%d" % first, "fn": "sym_history", "first": first, "steps": 3 if q else 4, "budget": 600 if q else 3000, "cost": 4})
     parts.append({"name": "lifecycle", "fn": "sym_lifecycle", "budget": 300, "cost": 2})
@@ -82,7 +83,7 @@ def sym_mapping(inp, part):
     cmd = part["cmd"]
     n = inp.int("n", 0, 255)
     c = inp.int("c", 0, 255)
-    ack = inp.int("ack", 0, 1)
+    ack = part["ack"]
     t = inp.int("t", part["tlo"], part["thi"])
     p = inp.str("p", part["maxlen"], exclude=LINE_TERMINATORS, no_trailing_ws=True)
     if not wellformed(n, c, cmd, ack, t):
